@@ -1,5 +1,6 @@
 import SnootyVerif.Proofs.Include
 import SnootyVerif.Proofs.IncludeSpec
+import SnootyVerif.Proofs.IncludeAcyclic
 
 /-!
 # C06 — Include expansion transcludes exactly the included content, and terminates
@@ -111,6 +112,37 @@ theorem expand_terminates (pages : Pages) (page : String) : (expandPage pages pa
   split
   · simp
   · exact expandFuel_isSome pages _ _ _ (Nat.lt_succ_self _)
+
+/-- On an acyclic include graph (witnessed by any rank function decreasing along includes of
+existing files) the circular-include guard never fires: no include is ever refused as circular, so
+every include of an existing file is expanded, recursively. The only diagnostics are missing files. -/
+theorem expand_acyclic_complete (pages : Pages) (rank : String → Nat) (hac : Acyclic pages rank)
+    (page : String) (out : List Out) (ds : List Diag) (h : expandPage pages page = some (out, ds)) :
+    ds.all (fun d => !d.isCircular) = true := by
+  unfold expandPage at h
+  split at h
+  · cases h; rfl
+  · rename_i body hb
+    exact expandFuel_no_cycle pages rank hac _ [] page body (out, ds) hb
+      (by intro s hs; simp at hs; subst hs; exact Nat.le_refl _) h
+
+/-- non-vacuity: a diamond (index includes a and b, both include c) is acyclic with rank = depth -/
+example : Acyclic [("index", [.inc 1 "a", .inc 2 "b"]), ("a", [.inc 3 "c"]), ("b", [.inc 4 "c"]), ("c", [.node 5 []])]
+    (fun f => if f == "index" then 3 else if f == "c" then 1 else 2) := by
+  intro f body hl t ht hs
+  simp only [lookup, List.find?_cons] at hl
+  split at hl
+  · cases hl; rename_i hf; simp at hf; subst hf
+    simp [targetsL, targets] at ht; rcases ht with rfl | rfl <;> decide
+  · split at hl
+    · cases hl; rename_i hf; simp at hf; subst hf
+      simp [targetsL, targets] at ht; subst ht; decide
+    · split at hl
+      · cases hl; rename_i hf; simp at hf; subst hf
+        simp [targetsL, targets] at ht; subst ht; decide
+      · split at hl
+        · cases hl; simp [targetsL, targets] at ht
+        · simp at hl
 
 /-- An include whose target is already being expanded is reported on the including file and left
 unexpanded. -/
